@@ -16,6 +16,7 @@ import Pyunicorn.Lemmas.NsiBetwTargets
 import Pyunicorn.Lemmas.NsiWrappedArenas
 import Pyunicorn.Lemmas.NsiGJ
 import Pyunicorn.Lemmas.NsiGJ2
+import Pyunicorn.Lemmas.NsiNewmanReg
 import Pyunicorn.Model.NsiMeasures
 /-!
 # C02 — Node-splitting invariance of all n.s.i. measures
@@ -1679,5 +1680,99 @@ def exG : Gr :=
 example : eval exG [0] M.nsiDegree = 3 ∧ eval (split exG 1 (1/4)) [0] M.nsiDegree = 3 ∧
     (split exG 1 (1/4)).n = 4 ∧ (split exG 1 (1/4)).w 1 = 3/2 ∧ (split exG 1 (1/4)).w 3 = 1/2 := by
   decide +kernel
+
+/-! ### Round 5g: the grounded `sp_M` is regular — `newmanWrapped` is total -/
+
+/-- **`sp_M[:-1, :-1]` of a connected network with positive node weights is regular**: the leading
+`(n−1) × (n−1)` block of `newmanM H` has only the zero kernel vector (maximum principle along walks
+to the grounded node, `Lemmas/NsiNewmanReg.lean`); hence the model of `sp_M_inv` (`newmanT`) and
+the measure on a connected network (`newmanAll`) always return -/
+theorem newman_grounded_system_regular (H : Gr) (hw : ∀ k, k < H.n → 0 < H.w k)
+    (hconn : Connected H) (ends : Bool) :
+    ¬ SingularBlock (H.n - 1) (newmanM H) ∧ (newmanT H).isSome = true ∧
+      (newmanAll H ends).isSome = true := by
+  have hreg := newman_grounded_regular H hw hconn
+  refine ⟨hreg, newmanT_isSome H hw hconn, ?_⟩
+  cases h : newmanAll H ends with
+  | none => exact absurd ((newman_all_none_iff_singular H ends).1.mp h) hreg
+  | some l => rfl
+
+/-- **the modelled wrapper of `nsi_newman_betweenness` is total**: on every undirected network with
+positive node weights (connected or not) `newmanWrapped` returns an array, of length `N` — every
+component's sub-network is connected (`component_subnetwork_connected`), so its reduced `sp_M` is
+regular (`newman_grounded_system_regular`), so C18's Gauss–Jordan returns
+(`newman_wrapped_none_iff_singular`) -/
+theorem newman_wrapped_total (G : Gr) (hsym : ∀ i j, G.adj i j = G.adj j i)
+    (hw : ∀ k, k < G.n → 0 < G.w k) (ends : Bool) :
+    ∃ r, newmanWrapped G ends = some r := by
+  cases h : newmanWrapped G ends with
+  | none => exact absurd h (newmanWrapped_ne_none G hsym hw ends)
+  | some r => exact ⟨r, rfl⟩
+
+/-- **Node-splitting invariance of `newmanWrapped` with no hypothesis about the linear algebra at
+all**: on every undirected loop-free network with positive node weights, every node `v`, every
+`0 < p < 1`, both values of `add_local_ends`, the modelled wrapper returns an array `r` on the
+network and an array `r'` on its split copy (`newman_wrapped_total`), `r'` has one entry more, agrees
+with `r` on the old nodes, and the twin carries `v`'s entry
+(`nsi_newman_wrapped_split_unconditional`). -/
+theorem nsi_newman_wrapped_split_total (G : Gr) (hsym : ∀ i j, G.adj i j = G.adj j i)
+    (hloop : ∀ i, G.adj i i = false) (hw : ∀ k, k < G.n → 0 < G.w k) (v : Nat) (p : Rat)
+    (hv : v < G.n) (hp0 : 0 < p) (hp1 : p < 1) (ends : Bool) :
+    ∃ r r', newmanWrapped G ends = some r ∧ newmanWrapped (split G v p) ends = some r' ∧
+      r'.length = r.length + 1 ∧
+      (∀ a, a < G.n → r'.getD a 0 = r.getD a 0) ∧ r'.getD G.n 0 = r.getD v 0 := by
+  obtain ⟨r, hr⟩ := newman_wrapped_total G hsym hw ends
+  obtain ⟨r', hr'⟩ := newman_wrapped_total (split G v p) (split_adj_symm G v p hsym)
+    (split_weights_pos G v p hv hp0 hp1 hw) ends
+  exact ⟨r, r', hr, hr',
+    nsi_newman_wrapped_split_unconditional G hsym hloop hw v p hv hp0 hp1 ends r r' hr hr'⟩
+
+private theorem compG_sym : ∀ i j, compG.adj i j = compG.adj j i := by
+  intro i j
+  rw [Bool.eq_iff_iff]
+  simp only [compG, decide_eq_true_eq, List.mem_cons, Prod.mk.injEq, List.mem_nil_iff, or_false]
+  omega
+
+private theorem compG_loop : ∀ i, compG.adj i i = false := by
+  intro i
+  simp only [compG, decide_eq_false_iff_not, List.mem_cons, Prod.mk.injEq, List.mem_nil_iff,
+    or_false]
+  omega
+
+private theorem compG_w : ∀ k, k < compG.n → 0 < compG.w k := by decide +kernel
+
+/-- non-vacuity (`newman_grounded_system_regular`, `newman_wrapped_total`): the hypothesis "positive
+weights" cannot be dropped — `zeroWG` (two linked nodes of weight 0, connected) has a singular
+reduced `sp_M` and the wrapper fails on it — and the conclusion is not trivial: on `compG`
+(components `{0,1}`, `{2,3}`, `{4}`) and on its split copy the arrays that `newman_wrapped_total`
+promises have lengths 5 and 6 -/
+example :
+    (newmanWrapped zeroWG true).isNone = true ∧
+    (∃ r, newmanWrapped compG true = some r ∧ r.length = 5) ∧
+    (∃ r', newmanWrapped (split compG 2 (1/4)) true = some r' ∧ r'.length = 6) := by
+  refine ⟨by decide +kernel, ?_, ?_⟩
+  · obtain ⟨r, hr⟩ := newman_wrapped_total compG compG_sym compG_w true
+    refine ⟨r, hr, ?_⟩
+    have h : ((newmanWrapped compG true).map List.length) = some 5 := by decide +kernel
+    rw [hr] at h
+    simpa using h
+  · obtain ⟨r', hr'⟩ := newman_wrapped_total (split compG 2 (1/4))
+      (split_adj_symm compG 2 (1/4) compG_sym)
+      (split_weights_pos compG 2 (1/4) (by decide) (by norm_num) (by norm_num) compG_w) true
+    refine ⟨r', hr', ?_⟩
+    have h : ((newmanWrapped (split compG 2 (1/4)) true).map List.length) = some 6 := by
+      decide +kernel
+    rw [hr'] at h
+    simpa using h
+
+/-- non-vacuity (`nsi_newman_wrapped_split_total`): instantiated on `compG`, node 2, `p = 1/4`; the
+promised arrays are the computed ones, and the twin (index 5) carries node 2's value -/
+example :
+    ∃ r r', newmanWrapped compG true = some r ∧ newmanWrapped (split compG 2 (1/4)) true = some r' ∧
+      r'.length = r.length + 1 ∧ (∀ a, a < 5 → r'.getD a 0 = r.getD a 0) ∧
+      r'.getD 5 0 = r.getD 2 0 :=
+  nsi_newman_wrapped_split_total compG compG_sym compG_loop compG_w 2 (1/4)
+    (by decide) (by norm_num) (by norm_num) true
+
 
 end Pyunicorn.Nsi
